@@ -108,6 +108,43 @@ def register(reg):
     reg.add(Contract(LP, 'wordLength', {'r': Int}, returns=Int, raises={'ExceptionRepCodeUnknown': 'not (%s)' % known},
                      ensures=[size_spec, 'implies(r == 130 or r == 234, result == 1)'], canaries=['result == 4']))
 
+    register_rp66(reg, True, spec=False)
+    register_bit(reg, True, spec=False)
+
+
+TIMEOUT = {'quick': 6, 'thorough': 30}
+
+
+def register_bit(reg, verify=False, spec=True):
+    """IBM float decoders of BIT/ReadBIT.py (verified under C07; used as callee contracts by C13)."""
+    if spec:
+        reg.add_spec_source(SPEC)
+    # ------------------------------------------------------------ BIT (ReadBIT.py): same IBM format
+    reg.add(Contract(BIT, 'bytes_to_float', {'b': Bytes}, returns=Real, raises={'ValueError': 'len(b) < 4'},
+                     ensures=['result == ibm32(b, 0)'], canaries=['result == 0']), verify=verify)
+    reg.add(Contract(
+        BIT, 'gen_floats', {'b': Bytes}, requires=['len(b) % 4 == 0'], yields=Real,
+        ensures=['len(out) == len(b) // 4', 'forall(0, len(out), lambda k: out[k] == ibm32(b, 4 * k))'],
+        loops=[Loop('while len(b) > offset', invariants=[
+            'offset == 4 * len(out)', 'offset <= len(b)', 'forall(0, len(out), lambda k: out[k] == ibm32(b, 4 * k))'],
+            decreases='len(b) - offset')],
+        canaries=['len(out) == 0']), verify=verify)
+
+
+
+def register_rp66(reg, verify=False, spec=True):
+    """RP66V1 decoders and the LogicalData cursor (verified under C07; callee contracts elsewhere)."""
+    if spec:
+        reg.add_spec_source(SPEC)
+    saved = getattr(reg, 'verify_override', None)
+    reg.verify_override = verify
+    try:
+        _register_rp66(reg)
+    finally:
+        reg.verify_override = saved
+
+
+def _register_rp66(reg):
     # ------------------------------------------------------------ RP66V1 LogicalData cursor (pFile.py)
     reg.add(Contract(PF, 'LogicalData.read', {'self': LD}, requires=['0 <= self.index'], returns=Byte, modifies=['self.index'],
                      raises={'IndexError': 'self.index >= len(self.bytes)'},
@@ -214,24 +251,4 @@ def register(reg):
                      raises={'ExceptionRepCode': 'not (%s)' % ' or '.join('rc == %d' % k for k in fl)},
                      ensures=[' and '.join('implies(rc == %d, result == %d)' % kv for kv in fl.items())],
                      canaries=['result == 4']))
-    register_bit(reg, True, spec=False)
-
-
-TIMEOUT = {'quick': 6, 'thorough': 30}
-
-
-def register_bit(reg, verify=False, spec=True):
-    """IBM float decoders of BIT/ReadBIT.py (verified under C07; used as callee contracts by C13)."""
-    if spec:
-        reg.add_spec_source(SPEC)
-    # ------------------------------------------------------------ BIT (ReadBIT.py): same IBM format
-    reg.add(Contract(BIT, 'bytes_to_float', {'b': Bytes}, returns=Real, raises={'ValueError': 'len(b) < 4'},
-                     ensures=['result == ibm32(b, 0)'], canaries=['result == 0']), verify=verify)
-    reg.add(Contract(
-        BIT, 'gen_floats', {'b': Bytes}, requires=['len(b) % 4 == 0'], yields=Real,
-        ensures=['len(out) == len(b) // 4', 'forall(0, len(out), lambda k: out[k] == ibm32(b, 4 * k))'],
-        loops=[Loop('while len(b) > offset', invariants=[
-            'offset == 4 * len(out)', 'offset <= len(b)', 'forall(0, len(out), lambda k: out[k] == ibm32(b, 4 * k))'],
-            decreases='len(b) - offset')],
-        canaries=['len(out) == 0']), verify=verify)
 
